@@ -269,6 +269,20 @@ Theorem eval_read_print_jsonlike : forall pf is_print v fuel, dat is_print false
 Proof. exact EvalJson.eval_read_print_jsonlike. Qed.
 Print Assumptions eval_read_print_jsonlike.
 
+(* ---- strings that carry the backtick flag (read from a backtick literal) are printed verbatim between backticks:
+   they read back when they contain no backtick; dat / read_print_data / eval_read_print_jsonlike cover them ---- *)
+Theorem read_print_backtick_str : forall s, Forall bitem_ok s ->
+  lexes_to (96 :: map raw_item s ++ [96]) [mkTok TBeginBacktickString []; mkTok TBacktickString (map item_rune s)].
+Proof. exact bstr_lexes. Qed.
+Print Assumptions read_print_backtick_str.
+
+(* a flagged string that contains a backtick cannot be read back (it cannot arise on the unchanged code:
+   the flag is only set by the reader of a backtick literal) *)
+Example backtick_inside_unreadable :
+  fst (observe (parse_whole true false 40 (print (fun _ => true) (VBStr [Rune 97; Rune 96; Rune 98])))) <> StDone
+  \/ snd (observe (parse_whole true false 40 (print (fun _ => true) (VBStr [Rune 97; Rune 96; Rune 98])))) <> [SStr true [97; 96; 98]].
+Proof. right. vm_compute. discriminate. Qed.
+
 (* ---- non-vacuity ---- *)
 Definition ascii_print (c : Z) : bool := (32 <=? c) && (c <=? 126).
 
